@@ -39,7 +39,7 @@ CHECKS = {
          "All 256 race-length bytes, Laps(0..=2000), Hours(0..=300); all 23 time fields: every 16-bit wire value and 32-bit boundary/byte-lane sets through the full packet codec in both modes over both baselines (meaning = w x resolution, exact re-encode), encode side floors to the resolution, out-of-range durations are refused.",
          "32-bit fields are covered on boundary sets, not completely.", "DESIGN.md §4 C15", "E1"),
  "C16": ("exploration", "exhaustive enumeration of strings to a length bound and of all pairs/triples of parsed versions",
-         "All strings <= 6/7 over a 13-symbol alphabet (no panic, watchdog for non-termination, print-reparse equality, letter case-insensitivity), all 8-byte wire forms of LFS's shape through the VER codec, all ordered pairs of parsed versions (antisymmetry, consistency with ==, number-letter-revision rule) and all triples of a stratified subset (transitivity).",
+         "All strings <= 6/7 over a 13-symbol alphabet (no panic, watchdog for non-termination, print-reparse equality, letter case-insensitivity), runs of 0..=200 of one symbol (incl. multi-byte numerals) in four frames, every non-negative finite f32 as the number (thorough: all 2^31; quick: every 2048th) printed and re-parsed, all 8-byte wire forms of LFS's shape through the VER codec, all ordered pairs of parsed versions (antisymmetry, consistency with ==, number-letter-revision rule) and all triples of a stratified subset (transitivity).",
          "A 20 s per-case watchdog stands in for a step budget.", "DESIGN.md §4 C16", "E1"),
  "C17": ("fault_enumeration", "exhaustive enumeration of truncation points, single-byte substitutions and hostile count values over generated and shipped files",
          "Generated PTH/SMX files with all count combinations 0..=2 and NaN/extreme payloads, every count 0..=8192 (quick) / 40000 (thorough) in each count field on its own, plus the shipped files: byte-exact write(parse(f)), stable re-parse; every strict prefix rejected; every single-byte substitution of files < 200 B parses without panic and within an allocation bound (counting allocator); every count field x 7 hostile values in a child process under RLIMIT_AS; from_file/from_pathbuf agree with read.",
